@@ -136,19 +136,19 @@ theorem R.forget {s a} (h : R s a) : R s a.forget := by
 @[simp] theorem forget_r (a : LSt) : a.forget.r = a.r := rfl
 
 @[simp] theorem fillE_rest (a : LSt) : a.fillE.rest = a.rest := by
-  unfold LSt.fillE; split <;> [rfl; (split <;> rfl)]
+  unfold LSt.fillE; (repeat' split) <;> rfl
 @[simp] theorem fillE_err (a : LSt) : a.fillE.err = a.err := by
-  unfold LSt.fillE; split <;> [rfl; (split <;> rfl)]
+  unfold LSt.fillE; (repeat' split) <;> rfl
 @[simp] theorem fillE_look (a : LSt) : a.fillE.look = a.look := by
-  unfold LSt.fillE; split <;> [rfl; (split <;> rfl)]
+  unfold LSt.fillE; (repeat' split) <;> rfl
 @[simp] theorem fillE_behind (a : LSt) : a.fillE.behind = a.behind := by
-  unfold LSt.fillE; split <;> [rfl; (split <;> rfl)]
+  unfold LSt.fillE; (repeat' split) <;> rfl
 @[simp] theorem fillE_ok (a : LSt) : a.fillE.ok = a.ok := by
-  unfold LSt.fillE; split <;> [rfl; (split <;> rfl)]
+  unfold LSt.fillE; (repeat' split) <;> rfl
 @[simp] theorem fillE_r (a : LSt) : a.fillE.r = a.r := by
-  unfold LSt.fillE; split <;> [rfl; (split <;> rfl)]
+  unfold LSt.fillE; (repeat' split) <;> rfl
 @[simp] theorem fillE_openBq (a : LSt) : a.fillE.openBq = a.openBq := by
-  unfold LSt.fillE; split <;> [rfl; (split <;> rfl)]
+  unfold LSt.fillE; (repeat' split) <;> rfl
 
 theorem R.head {s a b f} (h : R s a) (hf : s.front = b :: f) :
     a.err = none ∧ a.rest = b :: (f ++ s.pending) := by
@@ -230,7 +230,8 @@ theorem peek_refines0 {s a} (h : R s a) (hb : a.behind = none) :
     simp only [List.isEmpty_nil, if_true, h1, map_ok, bind_ok]
     cases hr : a.rest with
     | nil =>
-      simp only [hr, List.isEmpty_nil, if_true] at h2 ⊢
+      have he : a.rest.isEmpty = true := by simp [hr]
+      simp only [he, if_true] at h2 ⊢
       have hf' : s'.front = [] := h2.front_nil (by simp [hr])
       refine ⟨s', by simp [hf', hr], ?_⟩
       apply h2.setLook
@@ -238,7 +239,8 @@ theorem peek_refines0 {s a} (h : R s a) (hb : a.behind = none) :
       right
       exact h2.pending_nil hal (by simp [hr])
     | cons x xs =>
-      simp only [hr, List.isEmpty_cons] at h2 ⊢
+      have he : a.rest.isEmpty = false := by simp [hr]
+      simp only [he, Bool.false_eq_true, if_false] at h2 ⊢
       have hne : s'.front ≠ [] := h4 (by simp [hr])
       cases hf' : s'.front with
       | nil => exact absurd hf' hne
@@ -246,18 +248,142 @@ theorem peek_refines0 {s a} (h : R s a) (hb : a.behind = none) :
         obtain ⟨hal, hrest⟩ := h2.head hf'
         rw [hr] at hrest
         injection hrest with hx _
-        refine ⟨s', by simp [hx], ?_⟩
+        refine ⟨s', by simp [hr, hx], ?_⟩
         apply h2.setLook
         intro _
         rcases h2.look hal with hl | hl
         · left; simp [hf'] at hl ⊢; omega
         · right; exact hl
 
+theorem peek_eq (a : LSt) :
+    a.peek = ((match a.forget.peekEff0.rest with | [] => runeSelf | b :: _ => b.toNat), a.forget.peekEff0) := by
+  unfold LSt.peek LSt.peekEff
+  cases h : a.forget.peekEff0.rest <;> simp [h]
+
 theorem peek_refines {s a} (h : R s a) :
     ∃ s', s.peek = .ok (a.peek.1, s') ∧ R s' a.peek.2 := by
   obtain ⟨s', h1, h2⟩ := peek_refines0 h.forget (forget_behind a)
-  refine ⟨s', ?_, ?_⟩
-  · rw [h1]; unfold LSt.peek LSt.peekEff; split <;> simp_all
-  · unfold LSt.peek LSt.peekEff; split <;> simpa using h2
+  rw [peek_eq]
+  exact ⟨s', h1, h2⟩
+
+theorem R.setOk {s a} (h : R s a) (v : Bool) : R s { a with ok := v } := by
+  destruct_R h
+  constructor <;> simp_all <;> assumption
+
+theorem peekTwo_snd (a : LSt) : a.peekTwo.2.2 = a.forget.peekTwoEff0 := by
+  unfold LSt.peekTwo LSt.peekTwoEff
+  rcases h : a.forget.peekTwoEff0.rest with _ | ⟨b, _ | ⟨c, f⟩⟩ <;> simp [h]
+
+theorem peekTwoEff0_two {a : LSt} {b c t} (h : a.rest = b :: c :: t) :
+    a.peekTwoEff0 = { a with look := max a.look 2, ok := a.ok && (decide (a.look ≥ 1) || a.rest.isEmpty) } := by
+  simp [LSt.peekTwoEff0, h]
+
+theorem peekTwoEff0_short {a : LSt} (h : a.rest = [] ∨ ∃ b, a.rest = [b]) :
+    a.peekTwoEff0 = { a.fillE with look := max a.look 2, ok := a.ok && (decide (a.look ≥ 1) || a.rest.isEmpty) } := by
+  rcases h with h | ⟨b, h⟩ <;> simp [LSt.peekTwoEff0, h]
+
+theorem peekTwoEff0_ok (a : LSt) :
+    a.peekTwoEff0.ok = (a.ok && (decide (a.look ≥ 1) || a.rest.isEmpty)) := by
+  unfold LSt.peekTwoEff0
+  rcases a.rest with _ | ⟨b, _ | ⟨c, f⟩⟩ <;> simp
+
+def pk1 : List Byte → Nat
+  | [] => runeSelf
+  | b :: _ => b.toNat
+def pk2 : List Byte → Nat
+  | _ :: c :: _ => c.toNat
+  | _ => runeSelf
+
+theorem peekTwoEff0_rest (a : LSt) : a.peekTwoEff0.rest = a.rest := by
+  unfold LSt.peekTwoEff0
+  rcases h : a.rest with _ | ⟨b, _ | ⟨c, f⟩⟩ <;> simp [h]
+
+theorem peekTwo_1 (a : LSt) : a.peekTwo.1 = pk1 a.rest := by
+  have := peekTwoEff0_rest a.forget
+  unfold LSt.peekTwo LSt.peekTwoEff
+  rcases h : a.rest with _ | ⟨b, _ | ⟨c, f⟩⟩ <;> simp_all [pk1]
+
+theorem peekTwo_2 (a : LSt) : a.peekTwo.2.1 = pk2 a.rest := by
+  have := peekTwoEff0_rest a.forget
+  unfold LSt.peekTwo LSt.peekTwoEff
+  rcases h : a.rest with _ | ⟨b, _ | ⟨c, f⟩⟩ <;> simp_all [pk2]
+
+theorem R.setLookOk {s a} (h : R s a) (k : Nat) (v : Bool)
+    (hk : a.err = none → k ≤ s.front.length ∨ s.pending = []) : R s { a with look := k, ok := v } := by
+  destruct_R h
+  constructor <;> simp_all <;> assumption
+
+theorem peekTwo_refines {s a} (h : R s a) (hok : a.peekTwo.2.2.ok = true) :
+    ∃ s', s.peekTwo = .ok (a.peekTwo.1, a.peekTwo.2.1, s') ∧ R s' a.peekTwo.2.2 := by
+  have h0 := h.forget
+  have hb := forget_behind a
+  rw [peekTwo_snd, peekTwoEff0_ok] at hok
+  rw [peekTwo_1, peekTwo_2, peekTwo_snd, ← forget_rest a]
+  generalize a.forget = a0 at h0 hb hok ⊢
+  have hok2 : a0.look ≥ 1 ∨ a0.rest = [] := by
+    simp at hok
+    rcases hok.2 with h1 | h1
+    · left; exact h1
+    · right; exact h1
+  unfold St.peekTwo
+  rcases hf : s.front with _ | ⟨b, _ | ⟨c, f⟩⟩
+  · -- empty buffer: inside the protocol only at the end of the input
+    have hrest : a0.rest = [] := by
+      cases he : a0.err with
+      | some e => exact (h0.dead (by simp [he])).1
+      | none =>
+        rcases hok2 with h1 | h1
+        · rcases h0.look he with h2 | h2
+          · simp [hf] at h2; omega
+          · rw [(h0.alive he).1, hf, h2]; rfl
+        · exact h1
+    have hp : s.pending = [] ∨ a0.err ≠ none := by
+      cases he : a0.err with
+      | some e => right; simp
+      | none => left; exact h0.pending_nil he hrest
+    obtain ⟨s', h1, h2, h3, h4⟩ := fill_eof h0 hb hp
+    rw [hf] at h3
+    rw [peekTwoEff0_short (Or.inl hrest)]
+    refine ⟨s', by simp [h1, h3, hrest, pk1, pk2], ?_⟩
+    apply h2.setLookOk
+    intro he
+    right
+    exact h2.pending_nil he (by simpa using hrest)
+  · -- one byte buffered
+    obtain ⟨hal, hrest⟩ := h0.head hf
+    by_cases hp : s.pending = []
+    · obtain ⟨s', h1, h2, h3, h4⟩ := fill_eof h0 hb (Or.inl hp)
+      rw [hf] at h3
+      have hrest' : a0.rest = [b] := by rw [hrest, hp]; rfl
+      rw [peekTwoEff0_short (Or.inr ⟨b, hrest'⟩)]
+      refine ⟨s', by simp [h1, h3, hrest', pk1, pk2], ?_⟩
+      apply h2.setLookOk
+      intro he
+      right
+      rw [h4, hp]
+    · obtain ⟨n, s', h1, hn, h2, chunk, hne, hfr, happ⟩ :=
+        fill_data h0 hb hal hp (by simp [hf, bufSize])
+      rcases chunk with _ | ⟨c, ch⟩
+      · exact absurd rfl hne
+      · rw [hf] at hfr
+        have hrest' : a0.rest = b :: c :: (ch ++ s'.pending) := by
+          rw [hrest, ← happ]; rfl
+        rw [peekTwoEff0_two hrest']
+        refine ⟨s', by simp [h1, hfr, hrest', pk1, pk2], ?_⟩
+        apply h2.setLookOk
+        intro he
+        rcases h2.look he with hl | hl
+        · left; simp [hfr] at hl ⊢; omega
+        · right; exact hl
+  · -- two bytes buffered: no fill
+    obtain ⟨hal, hrest⟩ := h0.head hf
+    have hrest' : a0.rest = b :: c :: (f ++ s.pending) := hrest
+    rw [peekTwoEff0_two hrest']
+    refine ⟨s, by simp [hf, hrest', pk1, pk2], ?_⟩
+    apply h0.setLookOk
+    intro he
+    rcases h0.look he with hl | hl
+    · left; simp [hf] at hl ⊢; omega
+    · right; exact hl
 
 end ShVerif.C07
